@@ -91,10 +91,16 @@ def try_op(cfg, op, counters, what):
         s.step(p)
     out = s.step(op)
     late = None
-    if out.ok:
+    if out.ok and what != 'bigdup':
         img, oc = s.write()
         if not oc.ok:
             late = oc.sig()
+        elif what == 'reloc-same':
+            # the written image must not hold one identifier twice in a directory
+            dec = ecma119.decode(img.getvalue())
+            dups = [d for k, d in dec.all_problems() if 'dup-ident' in k]
+            if dups:
+                late = 'image:dup-ident@%s' % dups[0][:80]
     s.close()
     counters['candidates_tried'] = counters.get('candidates_tried', 0) + 1
     return out, late
@@ -104,7 +110,9 @@ def check_candidates(rng, counters, classes, n=40):
     vio = []
     for _ in range(n):
         level = rng.choice([1, 2, 3, 4])
-        kind = rng.choice(['iso-file', 'iso-file', 'iso-dir', 'joliet', 'udf', 'rr', 'depth', 'link', 'symlink', 'versions'])
+        kind = rng.choice(['iso-file', 'iso-file', 'iso-dir', 'joliet', 'udf', 'rr', 'depth', 'link', 'symlink', 'versions', 'reloc-same'])
+        if rng.random() < 0.02:
+            kind = 'bigdup'
         xa = rng.random() < 0.35
         cfg = Cfg(level=level, xa=xa)
         if kind == 'iso-file':
@@ -126,6 +134,40 @@ def check_candidates(rng, counters, classes, n=40):
             else:
                 op = {'op': 'add_hard_link', 'old': ('iso', pre[0]['iso_path']), 'new': ('iso', ident), '_pre': pre}
             exp = 'duplicate'
+        elif kind == 'bigdup':
+            # a name that exists as a file of more than one extent (> 4 GiB) added again
+            level = rng.choice([3, 4])
+            cfg = Cfg(level=level)
+            ident = 'BIG.DAT;1' if level == 3 else 'big.dat'
+            pre = [{'op': 'add_fp', 'cid': 900, 'length': rng.choice([0xfffff800 + 1, 0xfffff800 * 2, 0xfffff800 * 2 + 5]), 'iso_path': '/' + ident}]
+            how = rng.choice(['add_fp', 'add_hard_link', 'add_directory'])
+            if how == 'add_fp':
+                op = {'op': 'add_fp', 'cid': 1, 'length': rng.choice([3, 5000]), 'iso_path': '/' + ident, '_pre': pre}
+            elif how == 'add_directory':
+                op = {'op': 'add_directory', 'iso_path': '/' + ident, '_pre': pre}
+            else:
+                pre = pre + [{'op': 'add_fp', 'cid': 2, 'length': 3, 'iso_path': '/OTHER.;1' if level == 3 else '/other'}]
+                op = {'op': 'add_hard_link', 'old': ('iso', pre[-1]['iso_path']), 'new': ('iso', '/' + ident), '_pre': pre}
+            exp = 'duplicate'
+        elif kind == 'reloc-same':
+            # several directories of one name at the relocation depth under different parents: their
+            # identifiers in the relocation directory must stay distinct
+            level = rng.choice([1, 2, 3])
+            cfg = Cfg(level=level, rr=rng.choice(['1.09', '1.12']), xa=xa)
+            pre = []
+            p_ = ''
+            for d in range(6):
+                p_ += '/D%d' % d
+                pre.append({'op': 'add_directory', 'iso_path': p_, 'rr_name': 'd%d' % d})
+            n_ = rng.choice([2, 3, 4, 5])
+            for k in range(n_):
+                par = p_ + '/P%d' % k
+                pre.append({'op': 'add_directory', 'iso_path': par, 'rr_name': 'p%d' % k})
+                pre.append({'op': 'add_directory', 'iso_path': par + '/SAME', 'rr_name': 'same'})
+            op = pre.pop()
+            op['_pre'] = pre
+            ident = op['iso_path']
+            exp = True
         elif kind == 'link':
             ident = cand_iso_file(rng, level)
             exp = legal_iso_file(ident, level, xa)
@@ -221,7 +263,9 @@ def check_candidates(rng, counters, classes, n=40):
         cls = 'legal' if exp is True else ('unspecified' if exp is None else exp)
         classes.add((level, kind, cls))
         rep = {'cfg': cfg.to_json(), 'op': driver.ops_to_json([op])[0]}
-        if out.ok and late is not None:
+        if out.ok and late is not None and late.startswith('image:'):
+            vio.append({'key': '%s:%s' % (late.split('@')[0], kind), 'detail': '%s: %s' % (ident[:60], late), 'replay': rep})
+        elif out.ok and late is not None:
             vio.append({'key': 'late-failure:%s:%s' % (kind, late.split('@')[0]), 'detail': '%s accepted %r and write_fp failed: %s' % (op['op'], ident[:60], late), 'replay': rep})
         elif out.ok and exp not in (True, None):
             vio.append({'key': 'illegal-accepted:%s:%s' % (kind, exp), 'detail': 'level %d %s accepted %r (%d chars)' % (level, op['op'], ident[:60], len(ident)), 'replay': rep})
